@@ -18,7 +18,8 @@ PROPERTY = 'C13'
 LEVEL = 'model_checking'
 
 KINDS = ('list', 'dict', 'tup')
-TNAME = {'list': 'list', 'dict': 'dict', 'tup': 'tuple'}
+TNAME = {'list': 'list', 'dict': 'dict', 'tup': 'tuple', 'cdict': 'dict'}
+KINDS_C = ('list', 'dict', 'tup', 'cdict')     # cdict: a dict whose values carry comments
 MARK = re.compile(r'<Recursion on (\w+) with id=(-?\d+)>')
 
 
@@ -60,7 +61,7 @@ def build(spec, leafobj=None):
         if kind == 'list':
             nodes.append([])
             inner.append(None)
-        elif kind == 'dict':
+        elif kind in ('dict', 'cdict'):
             nodes.append({})
             inner.append(None)
         else:
@@ -75,6 +76,10 @@ def build(spec, leafobj=None):
         if kind == 'dict':
             for j, x in enumerate(items):
                 tgt['k%d' % j] = x
+        elif kind == 'cdict':
+            from prettyprinter import comment
+            for j, x in enumerate(items):
+                tgt['k%d' % j] = comment(x, 'c%d' % j)
         else:
             tgt.extend(items)
     return nodes, inner
@@ -102,7 +107,7 @@ def reference(spec, leaftext=None):
             return '([' + ', '.join(items) + '],)'
         if kind == 'list':
             return '[' + ', '.join(items) + ']'
-        return '{' + ', '.join("'k%d': %s" % (j, x) for j, x in enumerate(items)) + '}'
+        return '{' + ', '.join("'k%d': %s" % (j, x) for j, x in enumerate(items)) + '}'      # dict and cdict
     return r(0, frozenset(), 0), probes
 
 
@@ -128,9 +133,9 @@ def reachable(spec):
     return len(seen) == len(spec)
 
 
-def node_options(n, maxdeg):
+def node_options(n, maxdeg, kinds=KINDS):
     out = []
-    for kind in KINDS:
+    for kind in kinds:
         for deg in range(0, maxdeg + 1):
             for ch in itertools.product(range(n), repeat=deg):
                 for leaf in (None, 7):
@@ -138,8 +143,8 @@ def node_options(n, maxdeg):
     return out
 
 
-def graphs(n, maxdeg=2):
-    for spec in itertools.product(node_options(n, maxdeg), repeat=n):
+def graphs(n, maxdeg=2, kinds=KINDS):
+    for spec in itertools.product(node_options(n, maxdeg, kinds), repeat=n):
         if reachable(spec):
             yield spec
 
@@ -259,7 +264,13 @@ def work(item):
     ensure_registered()
     kind = item[0]
     part = core.Part()
-    if kind == 'graphs':
+    if kind == 'cgraphs':
+        _, n, lo, hi = item
+        for spec in itertools.islice(graphs(n, 2, KINDS_C), lo, hi):
+            if any(nd[0] == 'cdict' for nd in spec):
+                check_graph(spec, part, widths=(10 ** 6, 20, 1))
+                part.c['graphs'] += 1
+    elif kind == 'graphs':
         _, n, maxdeg, lo, hi = item
         for spec in itertools.islice(graphs(n, maxdeg), lo, hi):
             check_graph(spec, part)
@@ -295,6 +306,10 @@ def run(tier, seed):
         total = sum(1 for _ in graphs(n, 2))
         items += [('graphs', n, 2, lo, hi) for lo, hi in core.chunks(total, 1 if total < 3000 else 128)]
         desc.append('all rooted graphs with %d nodes (every node reachable), out-degree <= 2: %d' % (n, total))
+    for n in (1, 2):
+        total = sum(1 for _ in graphs(n, 2, KINDS_C))
+        items += [('cgraphs', n, lo, hi) for lo, hi in core.chunks(total, 32)]
+        desc.append('graphs with %d nodes where dict values may carry comments (lazily re-rendered values): %d candidates' % (n, total))
     if tier == 'thorough':
         total = sum(1 for _ in graphs(4, 1))
         items += [('graphs', 4, 1, lo, hi) for lo, hi in core.chunks(total, 128)]
